@@ -37,6 +37,7 @@ def worker_init(ctx):
 
 def worker_finish(ctx):
     ctx.count('mpo.shuffled_virtual_indices', _SHUFFLE['n'])
+    ctx.count('mpo.built_as_sum', _SHUFFLE.get('sums', 0))
 
 
 class _Skip(Exception):
@@ -103,6 +104,14 @@ def make_mpo(rng, L=None, kind=None, hermitian=False, nterms=None, all_id=None):
     tl = TermList(terms, strengths)
     g = MPOGraph.from_term_list(tl, sites, bc='finite', insert_all_id=bool(rng.random() < 0.7) if all_id is None else all_id)
     H = g.build_MPO()
+    if _SHUFFLE['p'] and len(terms) >= 2 and rng.random() < 0.2:
+        # the same operator as a sum of two MPOs (`__add__` stores its right marker as -1 and has block-diagonal bonds)
+        cut = int(rng.integers(1, len(terms)))
+        parts = []
+        for tt, ss in ((terms[:cut], strengths[:cut]), (terms[cut:], strengths[cut:])):
+            parts.append(MPOGraph.from_term_list(TermList(tt, ss), sites, bc='finite', insert_all_id=True).build_MPO())
+        H = parts[0] + parts[1]
+        _SHUFFLE['sums'] = _SHUFFLE.get('sums', 0) + 1
     if _SHUFFLE['p'] and rng.random() < _SHUFFLE['p']:
         # same operator, virtual indices (and the IdL / IdR markers) at arbitrary positions of every bond
         H = shuffle_virtual(H, rng)
